@@ -393,6 +393,29 @@ pub fn run(args: &Args) {
         return;
     }
     let mut rng = Rng::new(args.seed);
+    // fixed schedules first: the two concrete witnesses proved in Props/C15Dhcp.lean
+    let cycle = "world 167772165 167772165 2;start 0;deliver 0;deliver 0;deliver 0;deliver 0;release 0;deliver 0;start 1;deliver 0;deliver 0;deliver 0;deliver 0";
+    let dup_release = "world 5 5 3;start 0;deliver 0;deliver 0;deliver 0;deliver 0;release 0;dup 0;deliver 0;start 1;deliver 1;deliver 1;deliver 1;deliver 1;deliver 0;start 2;deliver 0;deliver 0;deliver 0;deliver 0";
+    let mut base = 0u64;
+    for (k, sched) in [cycle, dup_release].iter().enumerate() {
+        let mut ex = Exec::new();
+        out.begin_case(k as u64);
+        for l in sched.split(';') {
+            ex.apply(l, &mut out);
+        }
+        let st = ex.stored();
+        if k == 0 && (st != vec![None, Some(167772165)] || ex.reoffers != 1) {
+            out.fail(&format!("release cycle: expected the released address to be leased to client 1, got {:?}", st), "dhcp released-not-reoffered");
+        }
+        if k == 1 {
+            // not promised by the property; recorded so that the evidence shows what happens
+            out.count(if st[1].is_some() && st[1] == st[2] { "witness.dup_release_double_lease.reproduced" } else { "witness.dup_release_double_lease.not_reproduced" });
+        }
+        out.count("cases.fixed");
+        out.mark_nontrivial();
+        out.end_case();
+        base += 1;
+    }
     for c in 0..args.cases {
         let mut r = rng.fork();
         let n = if c < 16 { c + 1 } else { r.range(1, 16) };
@@ -411,7 +434,7 @@ pub fn run(args: &Args) {
         };
         let misbehave = r.chance(1, 12);
         let mut ex = Exec::new();
-        out.begin_case(c);
+        out.begin_case(base + c);
         ex.apply(&format!("world {} {} {}", start, start + size - 1, n), &mut out);
         let mut started = vec![false; n as usize];
         let steps = 8 * n + 12;
